@@ -82,6 +82,15 @@ def run_property(prop, tier, repo_root, seed, open_findings):
             obligations.extend(('regex:lexer', ob) for ob in facts)
         except Exception as e:
             undecided.append({'name': 'regex:lexer', 'reason': 'patterns could not be read/translated: %s' % e})
+    if 'linebreak' in u.get('regex', []):
+        from . import lexfacts
+        try:
+            facts = lexfacts.linebreak_facts(eng.repo)
+            functions.append({'name': 'penman._lexer:_LINE_BREAK / lex (line terminators of str input)', 'tier': 'P',
+                              'obligations': len(facts)})
+            obligations.extend(('regex:linebreak', ob) for ob in facts)
+        except Exception as e:
+            undecided.append({'name': 'regex:linebreak', 'reason': str(e)})
     if 'json' in u.get('regex', []):
         from . import lexfacts
         try:
